@@ -339,7 +339,7 @@ func init() {
 		Assumptions: []string{"API calls start after Run() created the automatic instances", "race reports are probabilistic: the pair list is what these runs observed"},
 		Gen: func(seed int64, tier string) []fw.Case {
 			var cs []fw.Case
-			reps := tierN(tier, 3, 12)
+			reps := tierN(tier, 4, 16)
 			iters := tierN(tier, 40, 60)
 			k := 0
 			for rep := 0; rep < reps; rep++ {
